@@ -430,6 +430,18 @@ func checkC11(an *Analysis, add func(Violation)) {
 				break
 			}
 		}
+		// the collector keeps reading: between two kernel hooks no simulated time passes, so whatever reached the
+		// socket strictly before the wake-up instant has been read by then - unless the reader has stopped
+		early := 0
+		for _, a := range c.Arrived {
+			if a.T < wake {
+				early++
+			}
+		}
+		if len(c.ReadFails) == 0 && len(c.Reads) < early {
+			v("stopped-collecting", fmt.Sprintf("%d datagrams reached the discovery socket before the timeout but only %d were read: the collector stopped early (last read: %s)", early, len(c.Reads), lastRead(c)))
+			continue
+		}
 		type exp struct {
 			e        model.Expect
 			optional bool
@@ -488,6 +500,14 @@ func checkC11(an *Analysis, add func(Violation)) {
 			}
 		}
 	}
+}
+
+func lastRead(c *Call) string {
+	if len(c.Reads) == 0 {
+		return "none"
+	}
+	d := c.Reads[len(c.Reads)-1]
+	return fmt.Sprintf("%d bytes from %s at %v", d.N, d.Src, d.T)
 }
 
 // ---- C10 ------------------------------------------------------------------------------------
@@ -733,7 +753,7 @@ func foreignHolds(sc *engine.Scenario, listen string) bool {
 // ---- C17 ------------------------------------------------------------------------------------
 
 func checkC17(an *Analysis, add func(Violation)) {
-	for _, name := range []string{"arg-mutated", "result-changed", "clone-aliased", "status-changed"} {
+	for _, name := range []string{"arg-mutated", "result-changed", "clone-aliased", "config-changed", "status-changed"} {
 		for _, e := range an.Notes[name] {
 			add(Violation{Code: name, Sig: "C17:" + name + ":" + opAt(an, e), Task: e.Task, Step: e.Step, Detail: name + ": " + trunc(string(e.Data), 1500)})
 		}
